@@ -64,6 +64,10 @@ pub struct C18Case {
     /// the faulted SPI transaction reaches the chip (side effects happen) before it is reported as failed
     #[serde(default)]
     pub fault_late: bool,
+    /// continuous reception through `LoRa::complete_rx`: after the first packet has been fetched (or the fetch has
+    /// failed) a second packet arrives for which the chip reports (length, offset); the second fetch is the one judged
+    #[serde(default)]
+    pub second: Option<(u8, u8)>,
     /// modulation the reception is prepared with (index into exec14::dr_params: SF7/125, SF9/125, SF12/125 with
     /// low-data-rate optimisation, SF7/250, SF8/500)
     #[serde(default)]
@@ -111,6 +115,7 @@ impl Shrinkable for C18Case {
         };
         push(&|c| c.fault_at = None, &mut v);
         push(&|c| c.fault_late = false, &mut v);
+        push(&|c| c.second = None, &mut v);
         push(&|c| c.via = Via::Driver, &mut v);
         push(&|c| c.board = Board::default(), &mut v);
         push(&|c| c.continuous = false, &mut v);
@@ -151,30 +156,36 @@ enum Fetched {
 struct Ctx<'a> {
     case: &'a C18Case,
     world: WorldRef,
+    /// the second packet was really announced to the second fetch (it was not served by a packet still latched)
+    second_applied: std::cell::Cell<bool>,
 }
 
 impl Ctx<'_> {
     /// The chip has received "a packet": raise RxDone, then make it lie.
     fn rx_done(&self, w: &mut World) -> bool {
         let c = self.case;
+        self.rx_done_with(w, c.len, c.offset, true)
+    }
+    fn rx_done_with(&self, w: &mut World, len: u8, offset: u8, arm_fault: bool) -> bool {
+        let c = self.case;
         let applied = match &mut w.chip {
             Chip::C126(ch) => {
                 let ok = ch.apply_outcome(&mut w.env, ChipOutcome::Done, &[], false);
                 ch.fill_pattern(c.seed);
-                ch.lie = Some(Lie { len: c.len, offset: c.offset, status_buf: c.status_buf, status_pkt: c.status_pkt, rssi: c.rssi, snr: c.snr, sig_rssi: c.sig_rssi });
+                ch.lie = Some(Lie { len, offset, status_buf: c.status_buf, status_pkt: c.status_pkt, rssi: c.rssi, snr: c.snr, sig_rssi: c.sig_rssi });
                 ok
             }
             Chip::C127(ch) => {
                 let ok = ch.apply_outcome(&mut w.env, ChipOutcome::Done, &[], false);
                 ch.fill_pattern(c.seed);
-                ch.set_lie(Lie127 { len: c.len, offset: c.offset, rssi: c.rssi, snr: c.snr });
+                ch.set_lie(Lie127 { len, offset, rssi: c.rssi, snr: c.snr });
                 ok
             }
         };
-        if let Some(k) = c.fault_at {
+        if let (Some(k), true) = (c.fault_at, arm_fault) {
             w.fault = Some(Fault { kind: if c.fault_late { FaultKind::SpiLate } else { FaultKind::Spi }, at: w.call.spi + k });
         }
-        w.env.tr(|| format!("chip: RxDone; reports len={} offset={} status={:#04x}/{:#04x} rssi={:#04x} snr={:#04x}", c.len, c.offset, c.status_buf, c.status_pkt, c.rssi, c.snr));
+        w.env.tr(|| format!("chip: RxDone; reports len={} offset={} status={:#04x}/{:#04x} rssi={:#04x} snr={:#04x}", len, offset, c.status_buf, c.status_pkt, c.rssi, c.snr));
         applied
     }
 }
@@ -252,14 +263,36 @@ fn run<RK: RadioKind>(rk: RK, cx: &Ctx<'_>, buf: &mut [u8]) -> Result<Fetched, D
             guarded(|| match c.via {
                 Via::CompleteRx => {
                     let mut fired = false;
-                    conv(drive(world, async { lora.complete_rx(&pkt, buf).await.map(|(n, _)| n as usize) }, |w, p| {
+                    let first = conv(drive(world, async { lora.complete_rx(&pkt, buf).await.map(|(n, _)| n as usize) }, |w, p| {
                         if p == Pend::Irq && !fired {
                             fired = true;
                             cx.rx_done(w)
                         } else {
                             false
                         }
-                    }))
+                    }));
+                    match (c.second, c.continuous) {
+                        (Some((len2, off2)), true) => {
+                            // the receiver keeps running: the caller re-arms its buffer and waits for the next packet
+                            for (i, b) in buf.iter_mut().enumerate() {
+                                *b = canary(c.seed, i);
+                            }
+                            world.borrow_mut().begin_call("rx-second", None);
+                            world.borrow_mut().env.bump("probe.second-packet-in-continuous-reception");
+                            world.borrow_mut().env.tr(|| format!("first fetch: {first:?}; a second packet arrives"));
+                            let mut fired = false;
+                            conv(drive(world, async { lora.complete_rx(&pkt, buf).await.map(|(n, _)| n as usize) }, |w, p| {
+                                if p == Pend::Irq && !fired {
+                                    fired = true;
+                                    cx.second_applied.set(true);
+                                    cx.rx_done_with(w, len2, off2, false)
+                                } else {
+                                    false
+                                }
+                            }))
+                        }
+                        _ => first,
+                    }
                 }
                 Via::GetRxResult => {
                     cx.rx_done(&mut world.borrow_mut());
@@ -304,12 +337,23 @@ fn run<RK: RadioKind>(rk: RK, cx: &Ctx<'_>, buf: &mut [u8]) -> Result<Fetched, D
 }
 
 fn execute_case(case: &C18Case, want_trace: bool) -> simcore::Outcome {
-    let c = case.sanitised();
+    let mut c = case.sanitised();
+    if !(c.via == Via::CompleteRx && c.continuous) {
+        c.second = None;
+    }
     let world = make_world(c.chip, c.board, want_trace);
     let mut stats = RunStats::default();
     let mut buf: Vec<u8> = (0..c.buf as usize).map(|i| canary(c.seed, i)).collect();
-    let cx = Ctx { case: &c, world: world.clone() };
+    let cx = Ctx { case: &c, world: world.clone(), second_applied: std::cell::Cell::new(false) };
     let res = with_radio_kind!(c.chip, c.board, world, |rk| guarded(|| run(rk, &cx, &mut buf)).and_then(|r| r));
+    // with a second packet it is the second fetch that is judged, against what the chip reported for that packet
+    // (when the first fetch failed before the chip's RxDone flag was cleared, the second call is served by the first
+    // packet, which is still latched: then it is judged against the first report)
+    let judged = match (c.second, cx.second_applied.get()) {
+        (Some((len2, off2)), true) => C18Case { len: len2, offset: off2, fault_at: None, ..c.clone() },
+        _ => c.clone(),
+    };
+    let c = judged;
 
     let fam = c.chip.family();
     let mut violation: Option<Violation> = None;
@@ -468,6 +512,7 @@ fn fill_random(r: &mut Rng, c: &mut C18Case, family_126: bool) {
     c.seed = r.below(256) as u8;
     c.fault_at = if r.chance(1, 12) { Some(r.below(8) as u16) } else { None };
     c.fault_late = c.fault_at.is_some() && r.chance(1, 2);
+    c.second = if r.chance(1, 3) { Some((boundary_u8(r, &[0, 12, 64, 255]), r.below(256) as u8)) } else { None };
 }
 
 impl Property for C18 {
@@ -520,6 +565,7 @@ impl Property for C18 {
             seed: 0,
             fault_at: None,
             fault_late: false,
+            second: None,
             dr: *r.pick(&[0u8, 0, 1, 2, 2, 3, 4]),
             avoid: avoid.iter().cloned().collect(),
         };
@@ -600,7 +646,7 @@ pub fn self_test() -> Result<(), String> {
     for chip in ALL_CHIPS {
         for via in ALL_VIAS {
             for (len, offset, bufsz) in [(12u8, 0u8, 64u16), (12, 250, 12), (65, 3, 64), (0, 0, 0)] {
-                let c = C18Case { chip, board: Board::default(), via, continuous: false, implicit: false, cfg_len: 255, buf: bufsz, len, offset, status_buf: 0x24, status_pkt: 0x24, rssi: 80, snr: 20, sig_rssi: 80, seed: 7, fault_at: None, fault_late: false, dr: 0, avoid: vec![] };
+                let c = C18Case { chip, board: Board::default(), via, continuous: false, implicit: false, cfg_len: 255, buf: bufsz, len, offset, status_buf: 0x24, status_pkt: 0x24, rssi: 80, snr: 20, sig_rssi: 80, seed: 7, fault_at: None, fault_late: false, second: None, dr: 0, avoid: vec![] };
                 let o = guarded_execute(&C18, &c, true)?;
                 let o2 = guarded_execute(&C18, &c, true)?;
                 if o2.stats.shape != o.stats.shape || o2.stats.counters != o.stats.counters || o2.trace != o.trace {
